@@ -713,6 +713,12 @@ pub fn run_session(ctx: &mut Ctx, v: &J) {
     let empty = vec![];
     let expect = v["expect"].as_array().unwrap_or(&empty);
     let mut m = Machine::new();
+    // C06 is a RELATION between what the creating closure and the verifying closure were handed, not a statement about the
+    // bytes themselves (C03-C05 own those): with `relcb` the structure bytes (last closure argument) and the serialised message
+    // are not compared with the specification's; instead any two calls of the session must agree / differ exactly as the
+    // specification's do
+    let relcb = v["relcb"].as_bool().unwrap_or(false);
+    let mut handed: Vec<(J, J, usize)> = vec![];
     for (i, e) in steps.iter().enumerate() {
         let o = m.step(e);
         ctx.evaluations += 1;
@@ -755,11 +761,32 @@ pub fn run_session(ctx: &mut Ctx, v: &J) {
             }
         }
         let slotfree = ex["slotfree"].as_bool().unwrap_or(false);
-        if !ex["nobytes"].as_bool().unwrap_or(false) && !bytes_list_equiv(&ex["bytes"], &o["bytes"], slotfree) {
+        if !relcb && !ex["nobytes"].as_bool().unwrap_or(false) && !bytes_list_equiv(&ex["bytes"], &o["bytes"], slotfree) {
             ctx.mismatch(&sp, v, "bytes-differ", json!({"step": i, "event": e, "want": ex["bytes"], "got": o["bytes"]}));
             return;
         }
-        if !bytes_list_equiv(&ex["cb"], &o["cb"], slotfree) {
+        if relcb {
+            let (ea, oa) = (ex["cb"].as_array().cloned().unwrap_or_default(), o["cb"].as_array().cloned().unwrap_or_default());
+            if ea.len() != oa.len() {
+                ctx.mismatch(&sp, v, "closure-arguments-differ", json!({"step": i, "event": e, "want": ex["cb"], "got": o["cb"]}));
+                return;
+            }
+            if let (Some(el), Some(ol)) = (ea.last(), oa.last()) {
+                // everything before the structure bytes (the stored signature / tag / ciphertext) is compared as it is
+                if !bytes_list_equiv(&json!(ea[..ea.len() - 1]), &json!(oa[..oa.len() - 1]), slotfree) {
+                    ctx.mismatch(&sp, v, "closure-arguments-differ", json!({"step": i, "event": e, "want": ex["cb"], "got": o["cb"]}));
+                    return;
+                }
+                for (pe, po, pi) in &handed {
+                    if (pe == el) != (po == ol) {
+                        ctx.mismatch(&sp, v, "created-and-verified-bytes-relation", json!({"steps": [pi, i], "event": e,
+                            "spec_says_equal": pe == el, "crate_handed_equal": po == ol}));
+                        return;
+                    }
+                }
+                handed.push((el.clone(), ol.clone(), i));
+            }
+        } else if !bytes_list_equiv(&ex["cb"], &o["cb"], slotfree) {
             ctx.mismatch(&sp, v, "closure-arguments-differ", json!({"step": i, "event": e, "want": ex["cb"], "got": o["cb"]}));
             return;
         }
